@@ -37,6 +37,9 @@ def main():
             except OSError:
                 props = ""
             import re as _re
+            allthm = _re.findall(r"^Theorem\s+([A-Za-z0-9_']+)", props, _re.M)
+            if allthm:
+                c["text"] += " All %d theorems pinned in coq/Props/%s.v on this commit: %s." % (len(allthm), pid, ", ".join(allthm))
             mis = _re.findall(r"^Theorem\s+(model_is_source[A-Za-z0-9_]*)", props, _re.M)
             if mis and "model_is_source" not in c["text"]:
                 c["text"] += (" Tie by proof: the functions of the anchored source files are REGENERATED from /repo/src on every run by a source "
